@@ -3,6 +3,7 @@ use crate::Outcome;
 use serde_json::Value;
 
 pub mod c02;
+pub mod c03;
 pub mod c04;
 pub mod c06;
 pub mod c12;
@@ -12,6 +13,7 @@ pub mod c19;
 pub fn run(id: &str, thorough: bool) -> Option<Outcome> {
     match id {
         "C02" => Some(c02::run(thorough)),
+        "C03" => Some(c03::run(thorough)),
         "C04" => Some(c04::run(thorough)),
         "C06" => Some(c06::run(thorough)),
         "C12" => Some(c12::run(thorough)),
@@ -24,6 +26,7 @@ pub fn run(id: &str, thorough: bool) -> Option<Outcome> {
 pub fn replay(id: &str, ex: &Value) -> Option<Report> {
     match id {
         "C02" => Some(c02::replay(ex)),
+        "C03" => Some(c03::replay(ex)),
         "C04" => Some(c04::replay(ex)),
         "C06" => Some(c06::replay(ex)),
         "C12" => Some(c12::replay(ex)),
